@@ -5,6 +5,8 @@ package smx
 import (
 	"fmt"
 	"math/rand"
+	"sort"
+	"strings"
 
 	"github.com/golang/protobuf/proto"
 	"github.com/marekgalovic/anndb/index"
@@ -166,7 +168,33 @@ type Gen struct {
 	Dim      int
 	Universe int
 	Metric   int
+	// LongMeta: about one metadata map in six carries a key longer than 255 bytes or a value longer than 65535 bytes
+	// (what the snapshot format's length fields cannot express; a partition holds them like any other item)
+	LongMeta bool
 	n        int
+}
+
+// ShowMeta prints a metadata map with long strings abbreviated.
+func ShowMeta(m map[string]string) string {
+	ab := func(x string) string {
+		if len(x) > 40 {
+			return fmt.Sprintf("%q*%d", x[:1], len(x))
+		}
+		return x
+	}
+	keys := make([]string, 0, len(m))
+	for k := range m {
+		keys = append(keys, k)
+	}
+	sort.Strings(keys)
+	out := "map["
+	for i, k := range keys {
+		if i > 0 {
+			out += " "
+		}
+		out += ab(k) + ":" + ab(m[k])
+	}
+	return out + "]"
 }
 
 func (g *Gen) vec() []float32 {
@@ -174,7 +202,26 @@ func (g *Gen) vec() []float32 {
 	return c.Vec(g.Rng)
 }
 
-func (g *Gen) meta() map[string]string {
+// OverLong reports whether a metadata map carries a key or a value that the snapshot format's length fields cannot
+// express.
+func OverLong(m map[string]string) bool {
+	for k, v := range m {
+		if len(k) > 255 || len(v) > 65535 {
+			return true
+		}
+	}
+	return len(m) > 65535
+}
+
+func (g *Gen) meta() map[string]string { return g.metaOf(true) }
+
+func (g *Gen) metaOf(single bool) map[string]string {
+	if single && g.LongMeta && g.Rng.Intn(6) == 0 {
+		if g.Rng.Intn(3) > 0 {
+			return map[string]string{strings.Repeat("K", 256+g.Rng.Intn(40)): "v", "k1": "short"}
+		}
+		return map[string]string{"k2": strings.Repeat("V", 65536+g.Rng.Intn(40))}
+	}
 	switch g.Rng.Intn(5) {
 	case 0:
 		return nil
@@ -191,7 +238,7 @@ func (g *Gen) meta() map[string]string {
 }
 
 func (g *Gen) item() *pb.BatchItem {
-	return &pb.BatchItem{Id: hx.Id(g.Rng.Intn(g.Universe)).Bytes(), Value: g.vec(), Metadata: g.meta(), Level: int32(g.Rng.Intn(g.Rng.Intn(4) + 1))}
+	return &pb.BatchItem{Id: hx.Id(g.Rng.Intn(g.Universe)).Bytes(), Value: g.vec(), Metadata: g.metaOf(false), Level: int32(g.Rng.Intn(g.Rng.Intn(4) + 1))}
 }
 
 // Next generates one log entry. The notification id is fresh per entry, as a
@@ -204,10 +251,10 @@ func (g *Gen) Next() *Entry {
 	switch r := g.Rng.Intn(100); {
 	case r < 30:
 		c.Type, c.Id, c.Value, c.Metadata, c.Level = pb.PartitionChangeType_PartitionChangeInsertValue, id.Bytes(), g.vec(), g.meta(), int32(g.Rng.Intn(g.Rng.Intn(4)+1))
-		desc = fmt.Sprintf("insert %d L%d meta=%v", hx.IdNum(id), c.Level, c.Metadata)
+		desc = fmt.Sprintf("insert %d L%d meta=%v", hx.IdNum(id), c.Level, ShowMeta(c.Metadata))
 	case r < 50:
 		c.Type, c.Id, c.Value, c.Metadata = pb.PartitionChangeType_PartitionChangeUpdateValue, id.Bytes(), g.vec(), g.meta()
-		desc = fmt.Sprintf("update %d meta=%v", hx.IdNum(id), c.Metadata)
+		desc = fmt.Sprintf("update %d meta=%v", hx.IdNum(id), ShowMeta(c.Metadata))
 	case r < 70:
 		c.Type, c.Id = pb.PartitionChangeType_PartitionChangeDeleteValue, id.Bytes()
 		desc = fmt.Sprintf("delete %d", hx.IdNum(id))
@@ -227,7 +274,7 @@ func (g *Gen) Next() *Entry {
 			c.BatchItems = append(c.BatchItems, it)
 			desc += fmt.Sprintf(" %d", hx.IdNum(uuid.FromBytesOrNil(it.Id)))
 			if kind != 2 {
-				desc += fmt.Sprintf("(meta=%v)", it.Metadata)
+				desc += fmt.Sprintf("(meta=%v)", ShowMeta(it.Metadata))
 			}
 		}
 	}
